@@ -162,6 +162,22 @@ def check_case(res, spec, method, allow_neg, exprs, label, consistent, limit=Non
         if not ok:
             bad.append(f"reported tensions (+ multiplier {lam:.3g}) are not a KKT point of the non-negative least-squares problem: "
                        f"min gradient {ww:.3g} (>= {-eps_w:.3g}), max z*w {zw:.3g} (<= {eps_zw:.3g})")
+        if method == "lsq" and not allow_neg:
+            # "equal that minimiser within solver tolerance": the residual the Levenberg-Marquardt back-end reaches against the optimum of an
+            # independent NNLS solve of the same problem.  On most systems it is within 1e-6 (relative); now and then, on large noisy systems
+            # with many tensions at zero, lmfit stops short and reports success (known finding D27)
+            import scipy.optimize
+            zopt, _ = scipy.optimize.nnls(A, b)
+            r_x, r_z = float(np.linalg.norm(A @ z - b)), float(np.linalg.norm(A @ zopt - b))
+            res.count("lsq residual compared with the NNLS optimum")
+            if r_x > r_z * (1 + 1e-5) + 1e-7 * (1 + float(np.linalg.norm(b))):
+                msg = (f"method='lsq' stops short of the non-negative optimum: residual {r_x:.6g} against {r_z:.6g}, tensions up to "
+                       f"{float(np.max(np.abs(z - zopt))):.3g} away from the minimiser (lmfit reports success)")
+                active = int(np.sum(zopt[:-1] < 1e-12))
+                if np.all(z >= -1e-12) and active >= 1 and r_x <= 1.05 * r_z:
+                    res.fail("oracle", msg + f"; {active} tensions of the minimiser are zero", replay, tag="D27-lsq-stops-short")
+                else:
+                    bad.append(msg)
         if consistent and abs(float(np.mean(x)) - 1) > 1e-6:
             bad.append(f"consistent system but mean tension {np.mean(x)}")
         # certificate evaluated in Coq on exact integers
